@@ -52,6 +52,7 @@ def parse_unit(u):
     return val
 
 
+CONVERT_IF = ["vasp", "abinit", "aims", "castep", "dftbp", "pwmat"]
 STRUCT_IF = ["vasp", "abinit", "qe", "wien2k", "elk", "siesta", "crystal", "dftbp", "turbomole", "aims", "castep", "fleur", "abacus", "lammps", "pwmat"]
 CELLS = ["cubic-1", "NaCl-grouped", "interleaved-tri", "outside", "NaClNaO-tri", "twelve"]
 
@@ -67,6 +68,9 @@ def plan(tier, seed):
                    for s in ("consistent", "swapped-first-two", "swapped-later", "duplicate", "wrong-cell", "last-step-moved", "two-steps-same-geometry")])
     import itertools
 
+    groups.append([{"kind": "convert", "calc": a_, "to": b_, "cell": cn} for a_ in CONVERT_IF for b_ in CONVERT_IF for cn in ("NaCl-grouped", "interleaved-tri")])
+    groups.append([{"kind": "scworkflow", "calc": "fleur", "cell": cn, "S": S_} for cn in ("NaCl-grouped", "interleaved-tri", "NaClNaO-tri")
+                   for S_ in ([[2, 0, 0], [0, 1, 0], [0, 0, 1]], [[2, 1, 0], [1, 2, 0], [0, 0, 1]], [[1, 1, 0], [-1, 1, 0], [0, 0, 1]], [[1, 0, 1], [0, 2, 0], [-1, 0, 1]], [[0, 1, 1], [1, 0, 1], [1, 1, 0]])])
     # magnetic cells: every arrangement of two species over up to 6 sites (up to 5 in the quick tier), collinear and non-collinear moments
     mg = []
     for n in range(2, 6 if tier == "quick" else 7):
@@ -748,10 +752,84 @@ def run_magmom(case, seed):
     return dict(ok=True, nontrivial=not grouped, transitions=2, outcome="ok:magmom:" + calc)
 
 
+def run_scworkflow(case, seed):
+    """Supercell files as the displacement workflow writes them (write_supercells_with_displacements with the unit cell's species
+    information and the supercell matrix) for the formats whose writer is told how many unit cells the supercell holds."""
+    from phonopy import Phonopy
+    from phonopy.interface import calculator as CALC
+    from phonopy.interface.calculator import get_default_physical_units
+    from phonopy.structure.atoms import PhonopyAtoms, symbol_map
+
+    itf = case["calc"]
+    cell = make_cell(case["cell"])
+    dist = get_default_physical_units(itf)["distance_to_A"]
+    cell_u = PhonopyAtoms(symbols=cell.symbols, cell=np.asarray(cell.cell) / dist, scaled_positions=cell.scaled_positions)
+    S = np.array(case["S"], int)
+    ph = phx.quiet(Phonopy, cell_u, supercell_matrix=S)
+    sc = ph.supercell
+    sc_phys = PhonopyAtoms(symbols=sc.symbols, cell=np.asarray(sc.cell) * dist, scaled_positions=sc.scaled_positions)
+    tag = "%s/%s" % (itf, "prod-diag=det" if abs(int(np.prod(np.diag(S)))) == abs(int(round(np.linalg.det(S)))) else "prod-diag!=det")
+    with tempfile.TemporaryDirectory(prefix="c17w_") as td:
+        cwd = os.getcwd()
+        os.chdir(td)
+        try:
+            info = ("unitcell", ["%d.%d" % (symbol_map[s_], 1) for s_ in cell.symbols], ["verif fleur", "", "&end /"])
+            phx.quiet(CALC.write_supercells_with_displacements, itf, sc, [sc], optional_structure_info=info, additional_info={"supercell_matrix": S})
+            L = open("supercell.in").read().splitlines()
+        except Exception as e:
+            return dict(ok=False, sig="C17/supercell-workflow/raised/" + tag, nontrivial=True, msg="%s %s S=%s: %s: %s" % (itf, case["cell"], S.tolist(), type(e).__name__, str(e)[:150]))
+        finally:
+            os.chdir(cwd)
+    lat = np.array([l.split()[:3] for l in L[1:4]], float) * float(L[4].split()[0]) * np.array(L[5].split()[:3], float)[None, :]
+    n = int(L[7].split()[0])
+    rows = [l.split() for l in L[8:8 + n]]
+    got = PhonopyAtoms(numbers=[int(float(r[0])) for r in rows], cell=lat, scaled_positions=np.array([r[1:4] for r in rows], float))
+    bad = same_crystal(sc_phys, got, dist, 2e-6)
+    if bad:
+        return dict(ok=False, sig="C17/supercell-workflow/" + tag, nontrivial=True, msg="%s %s S=%s: the supercell file of the displacement workflow is another crystal: %s" % (itf, case["cell"], S.tolist(), bad))
+    return dict(ok=True, nontrivial=True, transitions=2, outcome="ok:supercell-workflow:" + itf)
+
+
+def run_convert(case, seed):
+    """convert_crystal_structure(file_in, interface_in, file_out, interface_out): the file written for the second calculator
+    describes the same physical crystal (its numbers are in that calculator's length unit)."""
+    from phonopy.interface import calculator as CALC
+    from phonopy.interface.calculator import get_default_physical_units
+    from phonopy.structure.atoms import PhonopyAtoms
+
+    a, b = case["calc"], case["to"]
+    cell = make_cell(case["cell"])
+    da, db = get_default_physical_units(a)["distance_to_A"], get_default_physical_units(b)["distance_to_A"]
+    cell_a = PhonopyAtoms(symbols=cell.symbols, cell=np.asarray(cell.cell) / da, scaled_positions=cell.scaled_positions)
+    tag = "%s->%s" % (a, b)
+    with tempfile.TemporaryDirectory(prefix="c17c_") as td:
+        cwd = os.getcwd()
+        os.chdir(td)
+        try:
+            phx.quiet(CALC.write_crystal_structure, "in_" + a, cell_a, interface_mode=a)
+            phx.quiet(CALC.convert_crystal_structure, "in_" + a, a, "out_" + b, b)
+            got, _ = phx.quiet(CALC.read_crystal_structure, "out_" + b, interface_mode=b)
+        except Exception as e:
+            return dict(ok=False, sig="C17/convert/raised/" + tag, nontrivial=True, msg="%s %s: %s: %s" % (tag, case["cell"], type(e).__name__, str(e)[:150]))
+        finally:
+            os.chdir(cwd)
+    bad = same_crystal(cell, got, db, 2e-6)
+    if bad:
+        return dict(ok=False, sig="C17/convert/%s/%s" % ("same-length-unit" if abs(da - db) < 1e-12 else "length-unit-changes", tag), nontrivial=True,
+                    msg="%s %s: the converted file does not describe the same physical crystal: %s" % (tag, case["cell"], bad))
+    return dict(ok=True, nontrivial=bool(abs(da - db) > 1e-12), transitions=3, outcome="ok:convert")
+
+
 def run_group(cases, seed):
     out = []
     for c in cases:
         k = c["kind"]
+        if k == "convert":
+            out.append(run_convert(c, seed))
+            continue
+        if k == "scworkflow":
+            out.append(run_scworkflow(c, seed))
+            continue
         if k == "magmom":
             out.append(run_magmom(c, seed))
             continue
